@@ -20,7 +20,21 @@ from ..extract import validator_guards as _exg
 from ..lib import core
 
 TUPLE_KIND = {"tag.units": "strs", "mtag.units": "strs", "dim.labels": "strs", "refs_units": "strss",
-              "da.shape": "ints", "positions.shape": "ints", "mtag.extents.shape": "ints"}
+              "da.shape": "ints", "positions.shape": "ints", "mtag.extents.shape": "ints",
+              "tag.references[].shape": "intss", "mtag.references[].shape": "intss"}
+
+
+def read_path(p, g, ns):
+    """the value of a read: a dotted path, or `<path>[].<attr>` = that attribute of every item of the iterable"""
+    if "[]." in p:
+        base, attr = p.split("[].", 1)
+        out = []
+        for item in eval(base, g, ns):
+            for a in attr.split("."):
+                item = getattr(item, a)
+            out.append(item)
+        return out
+    return eval(p, g, ns)
 
 
 class Skip(Exception):
@@ -86,6 +100,8 @@ def to_val(path, x):
             kind = "strs" if x and all(isinstance(e, (str, bytes)) for e in x) else "rats"
         if kind == "strss":
             return ["strss", [[to_val("", u)[1] for u in ru] for ru in x]]
+        if kind == "intss":
+            return ["intss", [[int(e) for e in sh] for sh in x]]
         if kind == "strs":
             return ["strs", [to_val("", u)[1] for u in x]]
         if kind == "ints":
@@ -139,7 +155,7 @@ def one(fn, ns, g, out, stats):
     try:
         for p in an["reads"]:
             try:
-                v = eval(p, g, ns)
+                v = read_path(p, g, ns)
             except (AttributeError, NameError, KeyError, RuntimeError, ValueError, TypeError, IndexError):
                 continue            # absent: reads as None in the model; the interpreter must not need it either
             env[p] = to_val(p, v)
@@ -213,6 +229,10 @@ def collect(f, stats):
             one("check_entity", {"entity": t}, g, out, stats)
             ns = {"tag": t}
             try:
+                # the locals of check_tag (their assignments are pinned by C14_guards_locals)
+                ns["posdim"] = len(t.position)
+                if t.extent:
+                    ns["extlen"] = len(t.extent)
                 if t.references:
                     ns["refs_units"] = [get_dim_units(da) for da in t.references]
             except Exception:
@@ -228,6 +248,13 @@ def collect(f, stats):
                 except RuntimeError:
                     ns["positions"] = None
                 try:
+                    # the locals of check_multi_tag (their assignments are pinned by C14_guards_locals)
+                    if ns["positions"] is not None:
+                        shp = ns["positions"].shape
+                        ns["posdim"] = 1 if len(shp) == 1 else shp[1]
+                    if t.extents:
+                        shp = t.extents.shape
+                        ns["extdim"] = 1 if len(shp) == 1 else shp[1]
                     if t.references:
                         ns["refs_units"] = [get_dim_units(da) for da in t.references]
                 except Exception:
